@@ -249,3 +249,23 @@ Definition total_pair (s d : ty) : bool :=
 Definition key2_eqb (a b : ty * ty) : bool := ty_eqb (fst a) (fst b) && ty_eqb (snd a) (snd b).
 Definition mem_pair (p : ty * ty) (l : list (ty * ty)) : bool := existsb (key2_eqb p) l.
 
+
+(* ------------------------------------------------------------------------------------------------ regression witnesses
+   What the ENGINE answered before the repairs of its cast operator (commits "fix: cast ..." in /repo): source type, target
+   type, value, old answer.  cast_val never was a model of that behaviour; the list only documents the old defects and is
+   proved (Props/C09.v) to differ from the rule on every entry.  The same inputs are replayed on the engine from corpus/C09. *)
+Definition res_val_eqb (a b : res val) : bool :=
+  match a, b with
+  | Ok x, Ok y => val_eqb x y
+  | Err c, Err c' => String.eqb c c'
+  | _, _ => false
+  end.
+Definition cast_before_fix : list (ty * ty * val * res val) :=
+  [ (TBoolean, TString, VBool true, Ok (VStr "true"));                       (* value:Boolean->String *)
+    (TInteger, TInteger, VInt 9007199254740993, Ok (VInt 9007199254740992)); (* value:Integer->Integer *)
+    (TString, TInteger, VStr "3.5", Ok (VInt 3));                            (* accept:String->Integer *)
+    (TString, TInteger, VStr "9007199254740993", Ok (VInt 9007199254740992));(* roundtrip:Integer->String->Integer *)
+    (TNumber, TString, VNum (7 # 2), Ok (VStr "3.5000000000"));              (* value:Number->String, component level *)
+    (TString, TDuration, VStr "P1Y", Ok (VStr "P1Y"));                       (* value:String->Duration, component level *)
+    (TString, TDuration, VStr "abc", Ok (VStr "abc"));                       (* accept:String->Duration *)
+    (TString, TDate, VStr "inf", Ok (VStr "infinity")) ]%string.             (* accept:String->Date *)
